@@ -1,9 +1,10 @@
 (* C02 - People are neither created nor lost except through entry and exit flows.
-   Statements only; proofs are in Proofs/ConservationProofs.v. *)
+   Statements only; proofs are in Proofs/ConservationProofs.v and Proofs/AdaptiveProofs.v. *)
 From Coq Require Import QArith Qcanon List String Bool.
 Import ListNotations.
 From S2 Require Import Base.Num Base.Arr Model.Expr Model.Struct Model.Rates Model.Solvers Model.Program
-     Spec.RatesSpec Proofs.NumQc Proofs.RatesProofs Proofs.ConservationProofs Props.Examples.
+     Model.InitPop Model.Adaptive Spec.RatesSpec Proofs.NumQc Proofs.RatesProofs Proofs.ConservationProofs Proofs.AdaptiveProofs
+     Props.Examples.
 
 (* the rate of change of the total population = total entry rate - total exit rate; every flow
    with both ends contributes +r to its destination and -r to its source and cancels *)
@@ -53,6 +54,31 @@ Proof.
 Qed.
 Print Assumptions C02_closed_rk4.
 
+(* the adaptive solver (Dormand-Prince steps over the coefficient tables translated from ode.py, dense
+   output, accept / reject loop): every row of the solution of a closed model has the initial total -
+   for every step-size controller (error_ratio, next_dt), every initial step dt0 and every step bound;
+   the first requested time must lie ahead and be reached (otherwise the code, too, returns the
+   interpolation of its dummy initial coefficients) *)
+Theorem C02_closed_adaptive :
+  forall (O : NumOps) (T : NumTheory O) (m : model) (b : backend) (p : env O)
+         (error_ratio : list (F O) -> list (F O) -> list (F O) -> F O) (next_dt : F O -> F O -> F O)
+         (mxstep : nat) (y0 : list (F O)) (t0 dt0 tg : F O) (targets : list (F O)),
+    prepare_structural m = Ok b -> m_comps m <> [] -> closed_model m ->
+    List.length y0 = List.length (m_comps m) -> fltb O t0 tg = true ->
+    let f := fun t y => get_comp_rates O m b p t y in
+    let n := List.length (m_comps m) in
+    reached O (advance O error_ratio next_dt mxstep n f
+                 {| st_y := y0; st_f := f t0 y0; st_t := t0; st_dt := dt0; st_last_t := t0; st_coeff := (y0, y0, y0, y0, y0) |} tg) tg ->
+    Forall (fun row => List.length row = n /\ fsum O row = fsum O y0)
+           (odeint O error_ratio next_dt mxstep n f y0 t0 dt0 (tg :: targets)).
+Proof.
+  intros O T m b p er nd mx y0 t0 dt0 tg targets Hb Hne Hc Hy Hlt f n Hreach.
+  apply (odeint_conserves O T n f); try assumption.
+  - intros; apply get_comp_rates_length.
+  - intros; apply closed_total_rate_zero; assumption.
+Qed.
+Print Assumptions C02_closed_adaptive.
+
 (* replacement births replace deaths exactly when their weights sum to one *)
 Theorem C02_replacement :
   forall (O : NumOps) (T : NumTheory O) (m : model) (b : backend) (p : env O) (t : F O) (x0 : list (F O)),
@@ -72,4 +98,31 @@ Example C02_nonvacuous :
   /\ fsum QcOps (get_comp_rates QcOps ex_m ex_b ex_env (Q2Qc 1) ex_state) = Q2Qc 2.
 Proof.
   split; [exact ex_backend_ok|]. split; [vm_compute; discriminate|]. apply Qc_is_canon. vm_compute. reflexivity.
+Qed.
+
+(* non-vacuity of the closed-model theorems: a closed S -> I -> R chain, solved adaptively with a
+   controller that accepts every step and doubles the step size; the first requested time is reached
+   and every row has the initial total 1000 *)
+Local Open Scope string_scope.
+Definition closed_ops : list op :=
+  [ OpPop [("S", EConst 900); ("I", EConst 100)];
+    OpFlow (FlowSpec KTrans "inf" (EConst 2) "S" "I" [] [] None false);
+    OpFlow (FlowSpec KTrans "rec" (EConst (1#2)) "I" "R" [] [] None false) ].
+Definition closed_m : model :=
+  match build_ok 0 1 (1#2) ["S"; "I"; "R"] ["I"] closed_ops with Some m => m | None => empty_model end.
+Definition closed_b : backend := match prepare_structural closed_m with Ok b => b | Err _ => empty_backend end.
+Definition closed_run : list (list Qc) :=
+  odeint QcOps (fun _ _ _ => 0%Qc) (fun dt _ => (dt + dt)%Qc) 20 3
+         (fun t y => get_comp_rates QcOps closed_m closed_b ex_env t y)
+         (initial_population QcOps closed_m ex_env) 0%Qc (Q2Qc (1#4)) [Q2Qc (1#4); Q2Qc (1#2)].
+
+Example C02_closed_nonvacuous :
+  prepare_structural closed_m = Ok closed_b /\ m_comps closed_m <> []
+  /\ (forall f, In f (m_flows closed_m) -> has_src f = true /\ has_dst f = true)
+  /\ map (fun row => this (fsum QcOps row)) closed_run = [1000; 1000; 1000]%Q
+  /\ List.length closed_run = 3%nat.
+Proof.
+  split; [vm_compute; reflexivity|]. split; [vm_compute; discriminate|]. split.
+  - intros f Hf. vm_compute in Hf. repeat (destruct Hf as [<-|Hf]; [split; reflexivity|]). destruct Hf.
+  - split; vm_compute; reflexivity.
 Qed.
